@@ -49,6 +49,9 @@ class Path:
 
 
 _ENG = None
+# When True, repr()/str()/format() of an integer proxy forks over its feasible values and prints the
+# concrete number (needed where the code under analysis compares objects through their repr).
+REPR_CONCRETE = False
 
 
 def current():
@@ -542,11 +545,16 @@ class SymNum:
 
     def __deepcopy__(self, memo): return self
     def __copy__(self): return self
-    def __repr__(self): return f"Sym({self.e})"
+
+    def __repr__(self):
+        if REPR_CONCRETE and not self.isf and _ENG is not None:
+            return repr(concretize(self.e))
+        return f"Sym({self.e})"
+
     __str__ = __repr__
 
     def __format__(self, spec):
-        return f"Sym({self.e})"
+        return format(self.__repr__(), spec) if not (REPR_CONCRETE and not self.isf) else format(concretize(self.e), spec)
 
 
 def concretize(e, limit=48):
